@@ -171,7 +171,11 @@ pub fn run_requests(reqs: Vec<Value>, jobs: usize, timeout: Duration) -> Vec<Run
     }
     let mut out = vec![];
     for r in results.lock().unwrap().iter_mut() {
-        out.push(r.take().expect("missing result"));
+        out.push(r.take().unwrap_or_else(|| {
+            let mut x = RunResult::new(0, 0);
+            x.outcome = "harness-panic: supervisor thread died before this request was run".into();
+            x
+        }));
     }
     out
 }
@@ -292,6 +296,7 @@ pub fn write_evidence(
     let zero_probes: Vec<&String> = agg.stats.iter().filter(|(k, v)| k.starts_with("probe.") && **v == 0).map(|(k, _)| k).collect();
     let faults: BTreeMap<&String, &u64> = agg.stats.iter().filter(|(k, _)| k.starts_with("fault.")).collect();
     let steps = agg.stats.get("sim.db_calls").cloned().unwrap_or(0);
+    let exhaustive = extra.get("exhaustive").and_then(|v| v.as_bool()).unwrap_or(false);
     let ev = json!({
         "property_id": meta.id,
         "tier": tier,
@@ -301,6 +306,7 @@ pub fn write_evidence(
             "evaluations": agg.runs,
             "distinct_nontrivial": agg.shapes_nontrivial.len(),
             "rule": meta.rule,
+            "exhaustive": exhaustive,
             "samples": agg.samples,
             "distinct_shapes_all_runs": agg.shapes_all.len(),
             "simulated_steps_db_calls": steps,
